@@ -181,7 +181,18 @@ def run_case(case, obs):
                 mean = mags.mean(axis=0)
                 exp = (mags.max(axis=0) - mean) / mean
             try:
-                got = acnsim.current_unbalance(sim, ph)
+                how = rng.random()
+                if how < 0.6:
+                    got = acnsim.current_unbalance(sim, ph)
+                elif how < 0.75:
+                    got = acnsim.current_unbalance(sim, tuple(ph), unbalance_type="NEMA")
+                elif how < 0.9:
+                    import warnings as _w
+                    with _w.catch_warnings():
+                        _w.simplefilter("ignore")
+                        got = acnsim.current_unbalance(sim, ph, type="NEMA")  # deprecated spelling of the same argument
+                else:
+                    got = acnsim.current_unbalance(sim, np.array(ph))
                 judge("unbalance", got, exp, phases=ph)
                 if np.any(np.isnan(exp)):
                     obs.ev("q:unbalance_nan_positions")
